@@ -62,6 +62,12 @@ pub fn check(c: &Case) -> R {
         check_matcher("ShiftAnd", p, &c.texts, &|t| capped(sa.find_all(t), t))?;
         check_matcher("ShiftAnd (text as an iterator without size hint)", p, &c.texts, &|t| capped(sa.find_all(streamed(t)), t))?;
         check_matcher("ShiftAnd (text as a chain of two halves)", p, &c.texts, &|t| capped(sa.find_all(t[..t.len() / 2].iter().chain(t[t.len() / 2..].iter())), t))?;
+        check_matcher("ShiftAnd (text as owned u8 items)", p, &c.texts, &|t| capped(sa.find_all(t.iter().copied()), t))?;
+        check_matcher("ShiftAnd (text as &Vec<u8>)", p, &c.texts, &|t| {
+            let v = t.to_vec();
+            let r = capped(sa.find_all(&v), t);
+            r
+        })?;
         let bn = BNDM::new(p);
         check_matcher("BNDM", p, &c.texts, &|t| capped(bn.find_all(t), t))?;
     }
@@ -72,6 +78,11 @@ pub fn check(c: &Case) -> R {
     let kmp = KMP::new(p);
     check_matcher("KMP", p, &c.texts, &|t| capped(kmp.find_all(t), t))?;
     check_matcher("KMP (text as an iterator without size hint)", p, &c.texts, &|t| capped(kmp.find_all(streamed(t)), t))?;
+    check_matcher("KMP (text as owned u8 items)", p, &c.texts, &|t| capped(kmp.find_all(t.iter().copied()), t))?;
+    check_matcher("KMP (text as a boxed iterator)", p, &c.texts, &|t| {
+        let it: Box<dyn Iterator<Item = &u8>> = Box::new(t.iter());
+        capped(kmp.find_all(it), t)
+    })?;
 
     let occs: Vec<Vec<usize>> = c.texts.iter().map(|t| naive_find(p, t)).collect();
     let any_occ = occs.iter().any(|o| !o.is_empty());
